@@ -63,8 +63,23 @@ def drive(sc):
          "maxit": sc["maxit"], "vlb": [q(b) for b in vlb], "vub": [q(b) for b in vub], "grid": GRID, "outcome": "ok",
          "bounds": {"present": False, "lb": [], "ub": []}, "rows": [], "objs": [], "opt": {"maxiter": -1, "maxfun": -1}}
 
+    # transforms as an orthogonal switch (every second scenario of the gradient-based / gradient-free methods): the grid
+    # points are user-domain points, handed over in optimizer coordinates; recorded bounds are mapped back
+    import zlib
+    transforms = None
+    # (one common scale: unequal scales make the random perturbations anisotropic in optimizer coordinates, and the
+    #  truncated SVD of the gradient estimate then drops directions - the Jacobian of an affine function is no longer exact)
+    S_, O_ = np.array([2.0, 2.0, 2.0]), np.array([1.0, -1.0, 2.0])
+    if method != "differential_evolution" and zlib.crc32(str(sorted(sc.items())).encode()) % 2 == 1:
+        from ..transforms_util import make_transforms
+        transforms = make_transforms(var_scales=S_, var_offsets=O_, con_scales=[2.0, 4.0, 0.5][:nnl] if nnl else None)
+    free_idx = [0, 2] if masked else [0, 1, 2]
+
     def free_vec(g):
-        return np.array([g[0], g[1]] if masked else [g[0], 1.0, g[1]], dtype=np.float64)
+        full = np.array([g[0], 1.0, g[1]], dtype=np.float64)
+        if transforms is not None:
+            full = (full - O_) / S_
+        return full[free_idx]
 
     def script(kw):
         # what SciPy itself does with the arguments: scipy.optimize.minimize ignores `constraints` for every method but
@@ -76,7 +91,10 @@ def drive(sc):
                 kw = {**kw, "bounds": None}
         b = kw.get("bounds")
         if b is not None:
-            e["bounds"] = {"present": True, "lb": nums(b.lb), "ub": nums(b.ub)}
+            lbs, ubs = np.asarray(b.lb, dtype=np.float64), np.asarray(b.ub, dtype=np.float64)
+            if transforms is not None and lbs.size == len(free_idx):
+                lbs, ubs = lbs * S_[free_idx] + O_[free_idx], ubs * S_[free_idx] + O_[free_idx]
+            e["bounds"] = {"present": True, "lb": nums(lbs), "ub": nums(ubs)}
         if Captured.kind == "minimize":
             opts = kw.get("options") or {}
             e["opt"] = {"maxiter": int(opts.get("maxiter", -1)), "maxfun": int(opts.get("maxfun", -1))}
@@ -106,7 +124,7 @@ def drive(sc):
     plan = Plan(OptimizerContext(evaluator=evaluator, plugin_manager=manager_with_logging()))
     step = plan.add_step("optimizer")
     with patched(script=script):
-        _, outcome = outcome_of(lambda: plan.run_step(step, config=cfg))
+        _, outcome = outcome_of(lambda: plan.run_step(step, config=cfg, transforms=transforms))
     if outcome == "exc:NotImplementedError":
         outcome = "rejected"
     e["outcome"] = outcome
